@@ -493,7 +493,26 @@ func (p *Prog) dynamicTargets(f *ssa.Function, ci ssa.CallInstruction) []*ssa.Fu
 	if n := p.CG.Nodes[f]; n != nil {
 		for _, e := range n.Out {
 			if e.Site == ci {
-				out = append(out, e.Callee.Func)
+				t := e.Callee.Func
+				// a thunk / bound-method wrapper stands for the in-module method it forwards to
+				if t != nil && t.Synthetic != "" && !p.InModule(t) && p.inModuleLoose(t) {
+					var inner *ssa.Function
+					n := 0
+					for _, b := range t.Blocks {
+						for _, in := range b.Instrs {
+							if wci, ok := in.(ssa.CallInstruction); ok {
+								if c := wci.Common().StaticCallee(); c != nil {
+									inner = c
+									n++
+								}
+							}
+						}
+					}
+					if n == 1 && inner != nil && p.InModule(inner) {
+						t = inner
+					}
+				}
+				out = append(out, t)
 			}
 		}
 	}
